@@ -32,7 +32,7 @@ func (r *Registry) PushBlob(ctx context.Context, repoName string, desc ociregist
 		return ociregistry.Descriptor{}, fmt.Errorf("cannot read content: %v", err)
 	}
 	if err := CheckDescriptor(desc, data); err != nil {
-		return ociregistry.Descriptor{}, fmt.Errorf("invalid descriptor: %v", err)
+		return ociregistry.Descriptor{}, fmt.Errorf("invalid descriptor: %w", err)
 	}
 
 	r.mu.Lock()
